@@ -5,7 +5,7 @@ from .. import kernel, pipetrace
 from ..common import Machinery, log, read_ndjson
 from ..inputs import REF, fasta, gff, mutate
 
-CMDS = ["toma", "samvar", "variants", "snps", "udlist"]
+CMDS = ["toma", "samvar", "variants", "variantsref", "snps", "udlist"]
 
 
 def tie_msa():
@@ -30,7 +30,10 @@ def cli_vectors(ctx, gate_topa):
     files = {"in.sam": {"kind": "pipe-sam", "N": 24}, "ref.fa": {"kind": "pipe-ref"}, "m.fa": {"kind": "pipe-msa", "N": 24},
              "m.fasta": {"kind": "pipe-msa", "N": 24}, "ref.fasta": {"kind": "pipe-ref"}, "a.gb": {"kind": "pipe-gb"},
              "tie.fa": {"text": tie_msa()}, "same.gff": {"text": samestart_gff()},
-             "one.fa": {"text": fasta([("ref", REF), ("q0", mutate(REF, 0, 7)), ("q1", mutate(REF, 1, 8))])}}
+             "one.fa": {"text": fasta([("ref", REF), ("q0", mutate(REF, 0, 7)), ("q1", mutate(REF, 1, 8))])},
+             "pq.fasta": {"text": fasta([("q0", mutate(mutate(REF, 0, 5), 0, 9))])},
+             # 20 'up' targets at distance 1 and 20 at distance 2, interleaved: ties on (distance, ambiguity) in one direction
+             "pt.fasta": {"text": fasta([("t%d" % i, REF if i % 2 else mutate(REF, 0, 5)) for i in range(40)])}}
     vecs = []
 
     def add(id_, args, base=None, env=None, parse="", hdr=0, n=None, sig=None, r=reps, race=False):
@@ -67,6 +70,10 @@ def cli_vectors(ctx, gate_topa):
                 base=["closest", "-n", "3", "--table", "--query", "@m.fa", "--target", "@m.fa", "-m", "snp", "-t", "1"], env=env)
             add("toprank/p%s/t%d" % (gmp, t), ["updown", "topranking", "-q", "@m.fasta", "-t", "@m.fasta", "-r", "@ref.fasta", "--size-total", "6"],
                 env=dict(env or {}, VHOOK_JITTER=str(ctx.seed + t)), parse="csv", hdr=1, n=24)
+    add("toprank-push-ties", ["updown", "topranking", "-q", "@pq.fasta", "-t", "@pt.fasta", "-r", "@ref.fasta", "--dist-push", "2"],
+        r=max(reps, 12), sig="toprank-push-ties")
+    add("toprank-push-ties-table", ["updown", "topranking", "-q", "@pq.fasta", "-t", "@pt.fasta", "-r", "@ref.fasta", "--dist-push", "2", "--table"],
+        r=max(reps, 12), sig="toprank-push-ties")
     agg = ["variants", "--msa", "@tie.fa", "--reference", "ref", "-a", "@a.gb", "--aggregate"]
     add("variants-aggregate-ties", agg + ["-t", "4"], base=agg + ["-t", "1"], r=max(reps, 10), sig="variants-aggregate-ties")
     add("snps-aggregate", ["snps", "-r", "@ref.fa", "-q", "@m.fa", "--aggregate"], r=reps)
@@ -108,6 +115,14 @@ def run(ctx):
             for t in ([1, 4, 16] if quick else [1, 2, 3, 4, 8, 16]):
                 vecs.append({"id": "jit%d-%s-%d" % (n, cmd, t), "fam": "pipe", "sig": cmd, "cmd": cmd, "N": n, "T": t,
                              "mode": "jitter", "jseed": ctx.seed * 1000 + n + t})
+    # updown topranking with fasta targets: getLines workers -> reorderRecords; imposed late deliveries, repeated (map order)
+    for order in ([1, 2, 3, 4, 0], [2, 3, 4, 1, 0], [4, 3, 2, 1, 0], [1, 0, 3, 2, 4]):
+        for rep in range(3 if quick else 10):
+            vecs.append({"id": "toprank-gate-%s-%d" % ("".join(map(str, order)), rep), "fam": "pipe", "sig": "toprank", "cmd": "toprankgate",
+                         "N": 5, "T": 1, "mode": "gate", "order": order})
+    for rep in range(2 if quick else 8):
+        vecs.append({"id": "toprank-jit-%d" % rep, "fam": "pipe", "sig": "toprank", "cmd": "toprankgate", "N": 40, "T": 1,
+                     "mode": "jitter", "jseed": ctx.seed * 77 + rep})
     obs = kernel.run_vectors(ctx, "pipe", vecs, tag="pipe")
     rows = read_ndjson(obs)
     skipped = []
@@ -122,7 +137,7 @@ def run(ctx):
                 continue
             raise Machinery("schedule %s could not be imposed on the real worker pool (gate timed out)" % r["id"])
     # (1) traces of the small runs against the specification
-    small = [r for r in rows if r["id"] not in skipped and r["vec"]["N"] <= 6 and not r["obs"].get("timeout") and not r["obs"].get("panic")]
+    small = [r for r in rows if r["id"] not in skipped and r["vec"]["cmd"] in pipetrace.TOPO and r["vec"]["N"] <= 6 and not r["obs"].get("timeout") and not r["obs"].get("panic")]
     rejected = pipetrace.validate_traces(ctx, small)
     for r, why in rejected:
         ctx.add_failure("trace-rejected", r["vec"]["sig"], r["id"], {"vec": r["vec"], "why": why, "observed": r["obs"]})
